@@ -17,6 +17,13 @@ def jobs_for(kind, n, seed):
     gk = dict(p_cmd=0.2, cmds=['fail', 'succeed', 'noop', 'pause', 'pause'])
     if kind == 'plain':
         return ec.random_jobs(rnd, n, schedulers=('default', 'legacy'), label='plain') + ec.catalogue_jobs(schedulers=('default', 'legacy'), seeds=(1,))
+    if kind in ('retry', 'policy'):
+        gk = dict(partial_joins=False, p_join=1.0, p_retry=0.35, p_policy=(0.4 if kind == 'policy' else 0.0), p_cmd=0.02, p_err=0.4)
+        js = ec.random_jobs(rnd, n, schedulers=('default', 'legacy'), label=kind, gen_kw=gk)
+        for k, j in enumerate(js):
+            if k % 3 == 0:
+                j['policy'] = 'time_races'
+        return js
     base = ec.random_jobs(rnd, n, schedulers=('default', 'legacy'), label=kind, gen_kw=gk)
     out = []
     for k, j in enumerate(base):
@@ -56,7 +63,7 @@ def show(t, k, ctx=6):
     for w in o['wf']:
         print('  WF', w['sid'], w['state'], 'backlog', w['backlog'])
     for x in o['tk']:
-        print('  TK', x['name'], x['state'], x['next'], 'proc', x['processed'], 'eh', x['errHandled'])
+        print('  TK', x['name'], x['state'], x['next'], 'proc', x['processed'], 'eh', x['errHandled'], 'retryNo', x.get('retryNo'))
     for a in o['ax']:
         print('  AX', a['sid'], a['state'])
     print('  pend', o['pend'])
